@@ -336,6 +336,12 @@ class Execution:
                 self.final = "MAXINV"
                 break
             r = self.invoke_once()
+            # scenario "corrupt": {path: text} - once the operation holds a SUCCEEDED record its stored payload is replaced (a history
+            # the configured serializer can no longer restore: corruption, or a payload format that changed between deployments)
+            for cpath, ctext in (self.sc.get("corrupt") or {}).items():
+                crec = self.backend.ops.get(path_id(cpath))
+                if crec is not None and crec["Status"] == "SUCCEEDED" and not crec.get("_corrupted"):
+                    crec["_result"], crec["_corrupted"] = ctext, True
             if r.outcome in ("SUCCEEDED", "FAILED"):
                 self.final = r.outcome
                 break
